@@ -139,4 +139,6 @@ def run(ctx):
     rule_diagnostics(ctx)
     ias15.rule_kahan(ctx, 'R04.5')
     ias15.rule_closing_series(ctx, 'R01.5')
+    from . import c03
+    c03.rule_split_mass_agreement(ctx)         # R03.7: drift and kick of a splitting add up to the N-body Hamiltonian (energy error shrinks with dt)
     ctx.not_decided.append('conservation along trajectories (runtime numerics); energy error class of each integrator; hard-sphere collisions')
